@@ -112,7 +112,9 @@ class HashedIterable(Generic[T]):
 
         :return: An iterator over the hashed values.
         """
-        yield from self.values.values()
+        # a snapshot: while this iterator is suspended the consumer may add values (constructing an instance of a class
+        # adds to the registry store of that class), which must not break the iteration.
+        yield from list(self.values.values())
         for v in self.iterable:
             if v.id_ in self.values:
                 # listed more than once: it was already yielded, and later iterations will yield it once as well.
